@@ -233,6 +233,7 @@ func c19Run(r *ev.Run) {
 		maxCap, depthFor = 8, func(cap int) int { return imin(2*cap+4, 15) }
 	}
 	r.Rule = "tree: every string over {W=fill+move, S=set-as-oldest, R=reset} to the stated depth per capacity, observers (GetHistory, Oldest, Current, CopyRecent) checked against a list model after every step; fixpoint: explicit-state BFS over the same alphabet on canonical keys (reflection walk of the real FrameLoop, tags relative to newest). Non-trivial = distinct canonical ring state reached."
+	r.Assumptions = []string{"the list model in c19.go is the meaning of the statement", "fixpoint key only: ring slots older than 2*cap+2 tags cannot be observed (not assumed by the tree mode)"}
 	// ---- fixpoint BFS per capacity
 	type bfsRes struct {
 		states map[string]bool
